@@ -190,9 +190,9 @@ class BlockDiagLinearOperator(BlockLinearOperator, metaclass=_MetaBlockDiagLinea
         if isinstance(other, BlockDiagLinearOperator) and self.base_linear_op.shape == other.base_linear_op.shape:
             return BlockDiagLinearOperator(self.base_linear_op @ other.base_linear_op)
         # special case if we have a DiagLinearOperator
-        if isinstance(other, DiagLinearOperator):
+        if isinstance(other, DiagLinearOperator) and other.batch_shape == self.batch_shape:
             # matmul is going to be cheap because of the special casing in DiagLinearOperator
-            diag_reshape = other._diag.view(*self.base_linear_op.shape[:-1])
+            diag_reshape = other._diag.reshape(*self.base_linear_op.shape[:-1])
             diag = DiagLinearOperator(diag_reshape)
             return BlockDiagLinearOperator(self.base_linear_op @ diag)
         return super().matmul(other)
